@@ -17,6 +17,9 @@ Fixpoint notifs (o : list obs) : list notif :=
 
 Definition is_notify (x : obs) : bool := match x with Notify _ => true | _ => false end.
 Definition is_upd (x : obs) : bool := match x with UpdStart _ | UpdStop _ => true | _ => false end.
+(* what may happen while the device object is open: updater start/stop, push deliveries *)
+Definition is_pre (x : obs) : bool :=
+  match x with UpdStart _ | UpdStop _ | PushGot _ _ => true | _ => false end.
 Definition calls_only (o : list obs) : list obs := filter (fun x => negb (is_notify x)) o.
 
 Lemma notifs_app a b : notifs (a ++ b) = notifs a ++ notifs b.
@@ -33,10 +36,32 @@ Lemma calls_only_map_start l : calls_only (map UpdStart l) = map UpdStart l.
 Proof. induction l; simpl; [auto|]. now f_equal. Qed.
 Lemma calls_only_map_stop l : calls_only (map UpdStop l) = map UpdStop l.
 Proof. induction l; simpl; [auto|]. now f_equal. Qed.
-Lemma upd_map_start l : forallb is_upd (map UpdStart l) = true.
+Lemma upd_map_start l : forallb is_pre (map UpdStart l) = true.
 Proof. induction l; simpl; auto. Qed.
-Lemma upd_map_stop l : forallb is_upd (map UpdStop l) = true.
+Lemma upd_map_stop l : forallb is_pre (map UpdStop l) = true.
 Proof. induction l; simpl; auto. Qed.
+
+(* running the loop: only push deliveries, and none at all when forwarding is off *)
+Lemma drain_off c s l : fwd s = false -> flat_map (deliver_q c s) l = [].
+Proof.
+  intro F. induction l as [|q l IH]; [reflexivity|]. simpl. rewrite IH.
+  destruct q; simpl; [rewrite F|]; reflexivity.
+Qed.
+Lemma notifs_drain c s l : notifs (flat_map (deliver_q c s) l) = [].
+Proof.
+  induction l as [|q l IH]; [reflexivity|]. simpl. rewrite notifs_app, IH.
+  destruct q; simpl; [|reflexivity]. destruct (fwd s && (i =? mainp c)); reflexivity.
+Qed.
+Lemma calls_only_drain c s l : calls_only (flat_map (deliver_q c s) l) = flat_map (deliver_q c s) l.
+Proof.
+  induction l as [|q l IH]; [reflexivity|]. simpl. rewrite calls_only_app, IH. f_equal.
+  destruct q; simpl; [|reflexivity]. destruct (fwd s && (i =? mainp c)); reflexivity.
+Qed.
+Lemma pre_drain c s l : forallb is_pre (flat_map (deliver_q c s) l) = true.
+Proof.
+  induction l as [|q l IH]; [reflexivity|]. simpl. rewrite forallb_app, IH.
+  destruct q; simpl; [|reflexivity]. destruct (fwd s && (i =? mainp c)); reflexivity.
+Qed.
 
 (* ---- closed forms ------------------------------------------------------------------ *)
 
@@ -82,11 +107,11 @@ Lemma close_protos_eq f c l ps : forall i s t,
   pending s = Some t ->
   close_protos (closef_of f c) l i ps s =
     ({| blocked := blocked s; pending := Some (t ++ all_tasks i ps);
-        calls := calls s + count_dm ps; fwd := fwd s |},
+        calls := calls s + count_dm ps; fwd := fwd s; lis := lis s; queue := queue s |},
      protos_obs l i ps (calls s)).
 Proof.
   induction ps as [|p ps IH]; intros i s t H.
-  - simpl. destruct s as [b pe cs fw]. simpl in *. subst pe.
+  - simpl. destruct s as [b pe cs fw li qu]. simpl in *. subst pe.
     now rewrite app_nil_r, Nat.add_0_r.
   - cbn [close_protos protos_obs all_tasks]. unfold count_dm. cbn [filter].
     destruct (dmaplike p) eqn:D.
@@ -105,12 +130,13 @@ Qed.
 Definition close_block (c : cfg) (cs : nat) : list obs :=
   map UpdStop (seq 0 (length (protos c))) ++ SessClose :: protos_obs (lst c) 0 (protos c) cs.
 
-Definition closed_state (c : cfg) (cs : nat) : st :=
-  {| blocked := true; pending := Some (full_set c); calls := cs + count_dm (protos c); fwd := false |}.
+Definition closed_state (c : cfg) (cs : nat) (q : list qitem) : st :=
+  {| blocked := true; pending := Some (full_set c); calls := cs + count_dm (protos c);
+     fwd := false; lis := false; queue := q |}.
 
 Lemma close_open f c s :
   pending s = None -> blocked s = false ->
-  close_f (S f) c s = (closed_state c (calls s), close_block c (calls s), RTasks (full_set c)).
+  close_f (S f) c s = (closed_state c (calls s) (queue s), close_block c (calls s), RTasks (full_set c)).
 Proof.
   intros P B. cbn [close_f]. rewrite P, B.
   change (fun x : st => let '(a, b, _) := close_f f c x in (a, b)) with (closef_of f c).
@@ -180,7 +206,7 @@ Definition good (c : cfg) (s : st) : Prop := is_open s \/ is_closed c s.
 Lemma init_open : is_open init.
 Proof. repeat split. Qed.
 
-Lemma closed_state_closed c cs : is_closed c (closed_state c cs).
+Lemma closed_state_closed c cs q : is_closed c (closed_state c cs q).
 Proof. repeat split. Qed.
 
 Definition closedb (s : st) : bool := match pending s with Some _ => true | None => false end.
@@ -197,12 +223,12 @@ Qed.
 (* what the first report does to an open device object *)
 Lemma report_open c s k :
   is_open s ->
-  report c s k = (closed_state c 1,
+  report c s k = (closed_state c 1 (queue s),
                   close_block c 1 ++ match lst c with LLive => [Notify k] | _ => [] end).
 Proof.
   intros (B & P & C). unfold report, report_with, max_calls. cbv zeta.
   assert (E : close c (set_calls s (S (calls s))) =
-              (closed_state c 1, close_block c 1, RTasks (full_set c))).
+              (closed_state c 1 (queue s), close_block c 1, RTasks (full_set c))).
   { unfold close. rewrite (close_open 1 c (set_calls s (S (calls s))) P B). simpl calls. now rewrite C. }
   simpl calls. rewrite C. change (1 <? 1) with false. cbv iota.
   rewrite C in E. rewrite E.
@@ -210,7 +236,7 @@ Proof.
 Qed.
 
 Lemma close_of_open c s :
-  is_open s -> close c s = (closed_state c 0, close_block c 0, RTasks (full_set c)).
+  is_open s -> close c s = (closed_state c 0 (queue s), close_block c 0, RTasks (full_set c)).
 Proof.
   intros (B & P & C). unfold close. rewrite (close_open 1 c s P B). now rewrite C.
 Qed.
@@ -223,17 +249,20 @@ Proof. intros (_ & P & _). unfold close. simpl. now rewrite P. Qed.
 Lemma step_open c s e :
   is_open s ->
   match e with
-  | Lost i x => step c s e = (closed_state c 1,
+  | Lost i x => step c s e = (closed_state c 1 (queue s),
                   close_block c 1 ++ match lst c with LLive => [Notify (NLost i x)] | _ => [] end, RNone)
-  | Closed i => step c s e = (closed_state c 1,
+  | Closed i => step c s e = (closed_state c 1 (queue s),
                   close_block c 1 ++ match lst c with LLive => [Notify NClosed] | _ => [] end, RNone)
-  | UserClose => step c s e = (closed_state c 0, close_block c 0, RTasks (full_set c))
+  | UserClose => step c s e = (closed_state c 0 (queue s), close_block c 0, RTasks (full_set c))
   | Api m => step c s e = (s, [], match nth_error members m with Some _ => ROk | None => RNone end)
-  | PushStart => step c s e = (set_fwd s true, map UpdStart (seq 0 (length (protos c))), ROk)
-  | PushStop => step c s e = (set_fwd s false, map UpdStop (seq 0 (length (protos c))), ROk)
+  | PushStart => step c s e = (set_push s true, map UpdStart (seq 0 (length (protos c))), ROk)
+  | PushStop => step c s e = (set_push s false, map UpdStop (seq 0 (length (protos c))), ROk)
+  | PostPlay i => step c s e = (schedule s false i, [], RNone)
+  | PostErr i => step c s e = (schedule s true i, [], RNone)
+  | RunLoop => step c s e = (set_queue s [], flat_map (deliver_q c s) (queue s), RNone)
   end.
 Proof.
-  intro O. pose proof O as (B & P & C). destruct e; simpl.
+  intro O. pose proof O as (B & P & C). destruct e; simpl; try reflexivity.
   - now rewrite (report_open c s _ O).
   - now rewrite (report_open c s _ O).
   - now apply close_of_open.
@@ -253,22 +282,34 @@ Lemma step_closed c s e :
                                   | Some mem => if protected mem then RBlocked else ROk
                                   | None => RNone end)
   | PushStart | PushStop => step c s e = (s, [], RBlocked)
+  | PostPlay i => step c s e = (schedule s false i, [], RNone)
+  | PostErr i => step c s e = (schedule s true i, [], RNone)
+  | RunLoop => step c s e = (set_queue s [], [], RNone)      (* whatever was scheduled: nothing is delivered *)
   end.
 Proof.
-  intro K. pose proof K as (B & P & F). destruct e; simpl.
+  intro K. pose proof K as (B & P & F). destruct e; simpl; try reflexivity.
   - now rewrite (report_closed c s _ K).
   - now rewrite (report_closed c s _ K).
   - now apply close_of_closed.
   - rewrite B. simpl. destruct (nth_error members m); reflexivity.
   - now rewrite B.
   - now rewrite B.
+  - now rewrite (drain_off c s (queue s) F).
 Qed.
 
 Lemma set_calls_closed c s n : is_closed c s -> is_closed c (set_calls s n).
 Proof. intros (B & P & F). repeat split; assumption. Qed.
 
-Lemma set_fwd_open s b : is_open s -> is_open (set_fwd s b).
+Lemma set_push_open s b : is_open s -> is_open (set_push s b).
 Proof. intros (B & P & C). repeat split; assumption. Qed.
+Lemma set_queue_open s q : is_open s -> is_open (set_queue s q).
+Proof. intros (B & P & C). repeat split; assumption. Qed.
+Lemma schedule_open s e i : is_open s -> is_open (schedule s e i).
+Proof. apply set_queue_open. Qed.
+Lemma set_queue_closed c s q : is_closed c s -> is_closed c (set_queue s q).
+Proof. intros (B & P & F). repeat split; assumption. Qed.
+Lemma schedule_closed c s e i : is_closed c s -> is_closed c (schedule s e i).
+Proof. apply set_queue_closed. Qed.
 
 (* the invariant is preserved; a closing event always ends in a closed state *)
 Lemma step_good c s e :
@@ -277,9 +318,10 @@ Proof.
   intros [O | K].
   - pose proof (step_open c s e O) as H. destruct e; rewrite H; simpl;
       try (right; apply closed_state_closed); try (left; assumption);
-      left; now apply set_fwd_open.
+      left; first [now apply set_push_open | now apply schedule_open | now apply set_queue_open].
   - pose proof (step_closed c s e K) as H. right. destruct e; rewrite H; simpl;
-      try assumption; now apply set_calls_closed.
+      try assumption;
+      first [now apply set_calls_closed | now apply schedule_closed | now apply set_queue_closed].
 Qed.
 
 Lemma step_closing c s e :
@@ -292,10 +334,12 @@ Proof.
       try assumption; now apply set_calls_closed.
 Qed.
 
+
 Lemma step_closed_stays c s e : is_closed c s -> is_closed c (fst (fst (step c s e))).
 Proof.
   intro K. pose proof (step_closed c s e K) as H. destruct e; rewrite H; simpl;
-    try assumption; now apply set_calls_closed.
+    try assumption;
+    first [now apply set_calls_closed | now apply schedule_closed | now apply set_queue_closed].
 Qed.
 
 (* ---- run / final / trace plumbing ------------------------------------------------------ *)
@@ -378,6 +422,9 @@ Proof.
     + reflexivity.
     + reflexivity.
     + reflexivity.
+    + reflexivity.
+    + reflexivity.
+    + reflexivity.
 Qed.
 
 Lemma firstn1_repeat_app {A} (x : A) n l :
@@ -392,18 +439,21 @@ Proof.
   - rewrite trace_cons, notifs_app.
     pose proof (step_open c s e O) as H.
     destruct e; rewrite H; simpl fst; simpl snd.
-    + rewrite (notifs_closed c h _ (closed_state_closed c 1)). simpl.
+    + rewrite (notifs_closed c h _ (closed_state_closed c 1 _)). simpl.
       rewrite notifs_app, notifs_close_block. simpl. unfold expected.
       destruct (lst c); reflexivity.
-    + rewrite (notifs_closed c h _ (closed_state_closed c 1)). simpl.
+    + rewrite (notifs_closed c h _ (closed_state_closed c 1 _)). simpl.
       rewrite notifs_app, notifs_close_block. simpl. unfold expected.
       destruct (lst c); reflexivity.
-    + rewrite (notifs_closed c h _ (closed_state_closed c 0)). simpl calls.
+    + rewrite (notifs_closed c h _ (closed_state_closed c 0 _)). simpl calls.
       rewrite notifs_close_block. simpl. unfold expected. simpl reported.
       destruct (lst c); destruct (count_dm (protos c)) as [|n]; reflexivity.
     + simpl. now apply IH.
-    + rewrite notifs_map_start. simpl. apply IH. now apply set_fwd_open.
-    + rewrite notifs_map_stop. simpl. apply IH. now apply set_fwd_open.
+    + rewrite notifs_map_start. simpl. apply IH. now apply set_push_open.
+    + rewrite notifs_map_stop. simpl. apply IH. now apply set_push_open.
+    + simpl. apply IH. now apply schedule_open.
+    + simpl. apply IH. now apply schedule_open.
+    + rewrite notifs_drain. simpl. apply IH. now apply set_queue_open.
 Qed.
 
 (* ---- after close: blocked, silent, idempotent ---------------------------------------------- *)
@@ -416,6 +466,8 @@ Definition ok_after (c : cfg) (x : ev * (list obs * res)) : Prop :=
   | PushStart | PushStop => o = [] /\ r = RBlocked
   | UserClose => o = [] /\ r = RTasks (full_set c)
   | Lost _ _ | Closed _ => calls_only o = [] /\ r = RNone
+  | PostPlay _ | PostErr _ => o = [] /\ r = RNone
+  | RunLoop => o = [] /\ r = RNone        (* nothing reaches the push listener, whatever was scheduled *)
   end.
 
 Lemma after_close c : forall h s,
@@ -442,7 +494,7 @@ Qed.
    exactly one close block, then nothing *)
 Lemma calls_shape c : forall h s,
   is_open s ->
-  exists pre, forallb is_upd pre = true /\
+  exists pre, forallb is_pre pre = true /\
     (calls_only (trace c s h) = pre \/ calls_only (trace c s h) = pre ++ close_calls c).
 Proof.
   induction h as [|e h IH]; intros s O.
@@ -451,24 +503,31 @@ Proof.
     pose proof (step_open c s e O) as H.
     destruct e; rewrite H; simpl fst; simpl snd.
     + exists []. split; [reflexivity|]. right.
-      rewrite (calls_only_closed c h _ (closed_state_closed c 1)), app_nil_r.
+      rewrite (calls_only_closed c h _ (closed_state_closed c 1 _)), app_nil_r.
       rewrite calls_only_app, calls_only_close_block. destruct (lst c); simpl; now rewrite app_nil_r.
     + exists []. split; [reflexivity|]. right.
-      rewrite (calls_only_closed c h _ (closed_state_closed c 1)), app_nil_r.
+      rewrite (calls_only_closed c h _ (closed_state_closed c 1 _)), app_nil_r.
       rewrite calls_only_app, calls_only_close_block. destruct (lst c); simpl; now rewrite app_nil_r.
     + exists []. split; [reflexivity|]. right.
-      rewrite (calls_only_closed c h _ (closed_state_closed c 0)), app_nil_r.
+      rewrite (calls_only_closed c h _ (closed_state_closed c 0 _)), app_nil_r.
       apply calls_only_close_block.
     + simpl. now apply IH.
-    + destruct (IH _ (set_fwd_open s true O)) as (pre & U & D).
+    + destruct (IH _ (set_push_open s true O)) as (pre & U & D).
       exists (map UpdStart (seq 0 (length (protos c))) ++ pre). split.
       * rewrite forallb_app, upd_map_start, U. reflexivity.
       * rewrite calls_only_map_start. destruct D as [D | D]; rewrite D; [now left | right].
         now rewrite app_assoc.
-    + destruct (IH _ (set_fwd_open s false O)) as (pre & U & D).
+    + destruct (IH _ (set_push_open s false O)) as (pre & U & D).
       exists (map UpdStop (seq 0 (length (protos c))) ++ pre). split.
       * rewrite forallb_app, upd_map_stop, U. reflexivity.
       * rewrite calls_only_map_stop. destruct D as [D | D]; rewrite D; [now left | right].
+        now rewrite app_assoc.
+    + simpl. apply IH. now apply schedule_open.
+    + simpl. apply IH. now apply schedule_open.
+    + destruct (IH _ (set_queue_open s [] O)) as (pre & U & D).
+      exists (flat_map (deliver_q c s) (queue s) ++ pre). split.
+      * rewrite forallb_app, pre_drain, U. reflexivity.
+      * rewrite calls_only_drain. destruct D as [D | D]; rewrite D; [now left | right].
         now rewrite app_assoc.
 Qed.
 
